@@ -41,7 +41,7 @@ def pool(ctx):
     ints = [0, 1, -1, 2, 5, 7, 10, 12, 16, 31, 100000, 1000000, 2**53, 2**53 + 1, 2**63 - 2, 2**63 - 1, -2**63]
     floats = [0.0, -0.0, 0.5, 1.0, 1.5, 7.0, 12.0, 100000.0, 1000000.0, 1e21, 2.0**53, 9007199254740994.0, 9.223372036854775807e18, float("inf"), float("-inf"), float("nan")]
     strs = ["", "a", "abc", "0", "1", "12", "1000000", "-7", "1.5", "0.5", "007", "12.0", "9223372036854775808", "1e5", "0x10", "0X1F", "0b101", "-0x10", "010", " 1", "true", "9223372036854775806", "9223372036854775807", "9007199254740993", "-9223372036854775808", "-9223372036854775809", "1_0", "1_000000", "Inf", "-Inf", "+Inf", "inf", "Infinity", "NaN", "0x1p4", "0x1p-1", "0x.8p1", "1e1", "+10", ".5", "5."]
-    vals = [NIL, B(True), B(False)] + [V("nil", s=k) for k in ("chan", "func", "slice", "map", "ptr")] + [I(n) for n in ints] + [F(x) for x in floats] + [S(s) for s in strs]
+    vals = [NIL, B(True), B(False)] + [V("nil", s=k) for k in ("chan", "func", "slice", "map", "ptr")] + [V("cplx", l=[0, 0]), V("cplx", l=[1, 0]), V("cplx", l=[1, 2]), V("cplx", l=[0, 2])] + [I(n) for n in ints] + [F(x) for x in floats] + [S(s) for s in strs]
     vals += [L(), L(I(1)), L(I(1), I(2)), L(I(2), I(1)), L(F(1.0)), L(S("a")), L(S("1")), L(L(I(1)), L(I(2))), L(L(I(1)), L(I(3))), L(NIL), L(L()),
              M(), M((S("a"), I(1))), M((S("a"), I(2))), M((S("b"), I(1))), M((S("a"), I(1)), (S("b"), L(I(1)))), M((S("a"), F(1.0))), M((I(1), S("x")))]
     if not ctx.quick():
@@ -65,6 +65,7 @@ def describe(v):
     if v["t"] == "flt": return "float64(%r)" % struct.unpack("<d", bytes(v["l"]))[0]
     if v["t"] == "str": return "string(%r)" % v["s"]
     if v["t"] == "bool": return "bool(%s)" % (v["l"][0] == 1)
+    if v["t"] == "cplx": return "complex(%d, %d)" % tuple(v["l"])
     if v["t"] == "nil": return "nil" if not v["s"] else "nil %s" % v["s"]
     if v["t"] == "list": return "[" + ", ".join(describe(e) for e in v["es"]) + "]"
     return "{" + ", ".join(describe(p["es"][0]) + ": " + describe(p["es"][1]) for p in v["es"]) + "}"
@@ -93,7 +94,7 @@ def run(ctx):
     for ln in rej[:25]:
         bad = todo[ln - 1]
         a, b = vals[bad["i"] - 1], vals[bad["j"] - 1]
-        vlib.violation(ctx, "equality observation rejected by AnkoEq for a=%s b=%s (operands %s): %s" % (describe(a), describe(b), {"elem": "read from slices: la[0], lb[0]", "shared": "a is b[:len(a)], the same backing array", "litb": "b written as a literal", "lita": "a written as a literal", "uintptr": "handed over as uintptr", "mixedint": "handed over as int32 and uint16", "uint64": "handed over as uint64"}.get(bad.get("prov"), "in variables"), {k: bad[k] for k in ("eq", "req", "ne", "rne", "inn", "rinn", "sw", "rsw", "lege", "feq")}),
+        vlib.violation(ctx, "equality observation rejected by AnkoEq for a=%s b=%s (operands %s): %s" % (describe(a), describe(b), {"elem": "read from slices: la[0], lb[0]", "shared": "a is b[:len(a)], the same backing array", "ret": "results of Go functions returning interface{}", "range": "value variable of a map range / channel receive", "litb": "b written as a literal", "lita": "a written as a literal", "uintptr": "handed over as uintptr", "mixedint": "handed over as int32 and uint16", "uint64": "handed over as uint64"}.get(bad.get("prov"), "in variables"), {k: bad[k] for k in ("eq", "req", "ne", "rne", "inn", "rinn", "sw", "rsw", "lege", "feq")}),
                        {"kind": "eq", "a": a, "b": b, "obs": bad, "finding_key": finding_key(a, b, bad)})
     ctx.cov["evaluations"] += len(obs) * 10
     ctx.cov["distinct_nontrivial"] += len(obs)
